@@ -294,7 +294,11 @@ impl SE {
                 Info {
                     finite,
                     len,
-                    ints: f != "none",
+                    ints: match f.as_str() {
+                        "none" => false,
+                        "firstf" => infos[0].ints,
+                        _ => true,
+                    },
                     exact: infos.iter().all(|i| i.exact),
                     len_override: false,
                     huge: infos.iter().filter(|i| i.finite).all(|i| i.huge) && finite,
